@@ -350,12 +350,17 @@ def docstrings():
     # `ospath`: prelude imports of modules that are not loaded)
     item = st.tuples(st.sampled_from(PARAM_NAMES + ("x", "A", "f", "thing", "P", "ospath")), st.integers(0, len(DOC_ANNOTATIONS) - 1), st.integers(0, len(DOC_DESCS) - 1)).map(list)
     section = st.tuples(st.integers(0, len(DOC_KINDS) - 1), st.lists(item, min_size=1, max_size=2)).map(list)
-    return st.fixed_dictionaries({"sum": st.integers(0, len(DOC_SUMMARIES) - 1), "sections": st.lists(section, max_size=3)})
+    full = st.fixed_dictionaries({"sum": st.integers(0, len(DOC_SUMMARIES) - 1), "sections": st.lists(section, max_size=3)})
+    # empty and whitespace-only docstrings (`''''''`, `''' '''`): a docstring that is present but has no contents
+    empty = st.fixed_dictionaries({"sum": st.sampled_from((-1, -2)), "sections": st.just([])})
+    return st.one_of(full, full, full, empty)
 
 
 def doc_text(doc, style: str | None) -> str:
     """Docstring text (no indentation) for a docstring model in `style` (google when None)."""
     style = style or "google"
+    if doc["sum"] < 0:
+        return "" if doc["sum"] == -1 else "  "
     out = [DOC_SUMMARIES[doc["sum"] % len(DOC_SUMMARIES)]]
     for kind_i, items in doc["sections"]:
         kind = DOC_KINDS[kind_i % len(DOC_KINDS)]
@@ -573,6 +578,7 @@ def packages(importable: bool | None = None, expr_leaves: int = 6, layouts=("reg
             {
                 "importable": st.just(imp),
                 "layout": st.sampled_from(layouts),
+                "swap": st.booleans(),
                 "mods": st.fixed_dictionaries({"": mod, "a": st.none() | mod, "b": st.none() | mod, "sub": st.none() | mod, "sub.c": st.none() | mod}),
             },
         )
@@ -844,6 +850,11 @@ class _ModRenderer:
                 s.add(0, f"from {mod} import *")
             else:
                 s.add(0, f"from {mod} import " + ", ".join(n + (f" as {a}" if a else "") for n, a in chosen))
+                # names imported from the standard library are bound too: they can be listed in `__all__` and re-exported
+                # through a wildcard import of a later module (alias -> alias -> object that is not loaded)
+                for n, a in chosen:
+                    if (a or n) not in self.names:
+                        self.names.append(a or n)
         elif tag in ("from_sib", "import_sib"):
             if not self.earlier:
                 return
@@ -881,7 +892,7 @@ class _ModRenderer:
             name = stmt[1]
             self._guarded(f"from missing_mod_zz import {name}" + (" as thing2" if stmt[2] else ""))
         elif tag == "all":
-            pool = self.names if self.importable else self.names + ["Missing", "x"]
+            pool = self.names + ["P", "wraps"] if self.importable else self.names + ["P", "Missing", "x", "wraps"]
             chosen = list(dict.fromkeys(pool[i % len(pool)] for i in stmt[1])) if pool else []
             if stmt[2] and chosen:
                 s.add(0, "__all__ = [" + ", ".join(repr(n) for n in chosen[:1]) + "]")
@@ -932,7 +943,8 @@ def render_package(pkg, root: Path, style: str | None = None, name: str = PKG, s
     if namespace:
         (sp1 / name).mkdir(parents=True, exist_ok=True)
         (sp2 / name).mkdir(parents=True, exist_ok=True)
-        paths = [str(sp1), str(sp2)]
+        # the order of the search paths is drawn independently of the directory names (sp2 before sp1 when swapped)
+        paths = [str(sp2), str(sp1)] if pkg.get("swap") else [str(sp1), str(sp2)]
     else:
         paths = [str(sp1)]
     return {"search_paths": paths, "files": files, "name": name}
